@@ -474,6 +474,55 @@ def run(replay=None):
             if len(rec["units"]) >= 2 or rec["_ckind"] in ("def", "merge", "zerodim"):
                 nontrivial.add(rec["text"])
     samples += [{k: x[k] for k in ("text", "cls", "units", "dims", "factor", "num", "render", "tags")} for x in recs[5:7] + [y for y in recs if y["_ckind"] == "def"][:1]]
+
+    # 4. the tables are the CURRENT ones: the same custom symbol registered with different rows in consecutive
+    #    unit environments (left through `with` and through close()); for each environment the tables are read
+    #    again, TLC computes the expectation of the same texts, and they are replayed inside it
+    nenv = 0
+    try:
+        from scinumtools.units import UnitEnvironment
+        sym = "vfq"
+        rows = [{"magnitude": 3.0, "dimensions": [1, 0, -2, 0, 0, 0, 0, 0], "prefixes": ["k", "m"]},
+                {"magnitude": 0.25, "dimensions": [0, 1, 0, 0, -1, 0, 0, 0], "prefixes": ["k", "m"]},
+                {"magnitude": 7.0, "dimensions": [2, 0, 0, -1, 0, 0, 0, 0], "prefixes": ["k", "m"]}]
+        saved_tabs = replay_atom.tabs
+        for k, row in enumerate(rows):
+            env = UnitEnvironment({sym: dict(row, dimensions=list(row["dimensions"]), prefixes=list(row["prefixes"]))})
+            try:
+                data2 = T.live()
+                wd2 = os.path.join(wd, f"env{k}"); os.makedirs(wd2, exist_ok=True)
+                T.write(wd2, data2)
+                write_mc(wd2, data2, 4)
+                c2 = Conc(data2, rnd)
+                ui = [i + 1 for i, u in enumerate(data2["units"]) if u["name"] == sym][0]
+                mi = [i + 1 for i, u in enumerate(data2["units"]) if u["name"] == "m"][0]
+                ecases = []
+                for p in (0, c2.P["k"], c2.P["m"]):
+                    for e in ((1, 1), (2, 1), (1, 2), (-1, 1), (-3, 2)):
+                        ecases.append({"shape": ["a1"], "atoms": [c2.unit_atom((p, ui), e)]})
+                        ecases.append({"shape": ["a1", "/", "a2"], "atoms": [c2.unit_atom((0, mi), (1, 1)), c2.unit_atom((p, ui), e)]})
+                fin2 = os.path.join(wd2, "cases.json")
+                json.dump(ecases, open(fin2, "w"))
+                r5 = C.run_tlc(wd2, "UnitExprMC", strip_lemmas(expr_cfg("file", 0, 0, devs)), env={"UEXPR_IN": fin2})
+                states += r5.distinct; trans += r5.generated
+                replay_atom.tabs = A.tabs_of(data2)
+                erecs = r5.records
+                for rec in erecs:
+                    rec["_ckind"], rec["_row"] = "env", None
+                    rec["tags"] = list(rec.get("tags", [])) + ["custom_unit_environment"]
+                account("case", erecs, [replay_case(rec) for rec in erecs])
+                classes["expr:custom_env"] = classes.get("expr:custom_env", 0) + len(erecs)
+                nenv += 1
+            finally:
+                replay_atom.tabs = saved_tabs
+                if k % 2 == 0:
+                    env.close()
+                else:
+                    env.__exit__(None, None, None)       # what leaving a `with` block does
+    except C.MachineryError:
+        raise
+    except Exception as e:
+        V.notes.append("custom unit environments could not be exercised: " + repr(e)[:160])
     if (r1.violated or unref or r2.violated or r3.violated or r4.violated) and V.counts["violation"] == 0:
         V.drift("a TLC machine-vs-ideal counterexample was not reproduced by the code")
     npairs = len(conc.pairs)
@@ -487,7 +536,8 @@ def run(replay=None):
                 "literals (TLC, exhaustive); expressions: every token string of bounded length (shape classes), every grammar shape x "
                 "pool assignment (algebra lemmas), and shapes concretised with table symbols so that every admissible (prefix, unit) "
                 "pair occurs; non-trivial = distinct texts that carry a prefix / insertion / exponent, or expressions with >= 2 distinct units, "
-                "definitions and merging cases",
+                "definitions and merging cases; finally the same custom symbol registered with three different rows in consecutive unit "
+                "environments, the same texts judged against the tables read inside each",
         "samples": samples, "exhaustive": True, "classes": classes,
         "pairs_used": len(used_pairs & {(data['prefixes'][p - 1]['name'] if p else '', data['units'][u - 1]['name']) for p, u in conc.pairs}),
         "pairs_total": npairs,
